@@ -119,6 +119,7 @@ def _(self: Ref['mqtt.client.factory.MQTTFactory'], addr: Obj, prof: int) -> Any
             and is_unset(result.connReq))
     ensures(wf_containers(result) and distinct_containers(result))
     ensures(inv_W(result) and inv_R(result) and inv_S(result) and inv_U(result) and inv_X(result) and inv_Q(result))
+    ensures(conn_timers_ok(result))
     ensures(forall(lambda k: not contains(S(result), k)) and forall(lambda k: not contains(U(result), k)))
     ensures(is_none(result._pingReq.timer) and is_none(result._pingReq.alarm))
     # only the rows of this address are touched in the six tables (C19)
@@ -143,3 +144,23 @@ def rest_after_loss(self: Ref['mqtt.client.pubsubs.MQTTProtocol']):
     ensures(fwf(self.factory))
     ensures(session_at_rest(self.factory, self.addr))
     ensures(rest_distinct(self.factory, self.addr))
+
+
+# ---- the reactor's side of the timer contracts: whenever a timer of one of these kinds is ACTIVE (so that the reactor
+# may call it), the invariant that holds between entry points implies the precondition of its callback
+@lemma(props=['C04', 'C13', 'C16'])
+def connack_timeout_may_fire(self: Ref['mqtt.client.pubsubs.MQTTProtocol'], t: Ref['DelayedCall']):
+    requires(is_obj(self.addr) and any_state(self))
+    requires(isa(t, 'DelayedCall') and is_int(t.t_status) and t.t_status == 0 and t.t_owner == self and is_int(t.t_fn)
+             and t.t_fn == fn('mqtt.client.base.MQTTBaseProtocol.doConnect.connectError') and is_ref(t.t_arg))
+    # = the requires of the contract of doConnect.connectError (specs/connection.py) for request = t.t_arg
+    ensures(isa(self.transport, 'Transport') and is_int(self.transport.tr_aborts))
+    ensures(isa(t.t_arg.deferred, 'Deferred') and is_bool(t.t_arg.deferred.d_fired) and not t.t_arg.deferred.d_fired)
+    ensures(is_ref(self.IDLE))
+
+
+@lemma(props=['C15', 'C13', 'C16'])
+def ping_timeout_may_fire(self: Ref['mqtt.client.pubsubs.MQTTProtocol']):
+    requires(is_obj(self.addr) and any_state(self))
+    # = the requires of the contract of doPingRequest.doPingError
+    ensures(isa(self.transport, 'Transport') and is_int(self.transport.tr_aborts) and isa(self._pingReq, 'mqtt.pdu.PINGREQ'))
